@@ -323,6 +323,7 @@ impl System {
                 f
             }
             Ok(ev) => {
+                self.snapshot_registry();
                 let o = self.lanes[X].event_bytes(b);
                 let mut f = self.account("event-wellformed", b, &o.class());
                 if let Outcome::Panicked(p) = &o {
